@@ -20,7 +20,7 @@ CLASSIFY = None
 
 
 def streams(ctx):
-    n = 8 if ctx.thorough else 1
+    n = 16 if ctx.thorough else 1
     return [("scripts", "script", 700 * n), ("scripts-rev", "script", 300 * n)]
 
 
